@@ -771,7 +771,7 @@ def ht_cfg(r, n, coarsening, exact_small=True, rich=False):
     cprm = dict(eps_strong=fmt_q(gen.f32(F(r.choice(["2/25", "2/25", "1/4", "1/8", "0", "1/16"])))), relax="-", over_interp="-",
                 do_trunc="-", eps_trunc="-")
     if coarsening == "aggregation": cprm["over_interp"] = r.choice(["-", "3/2", "2", "5/4"])
-    if coarsening == "smoothed_aggregation": cprm["relax"] = r.choice(["-", "-", "1", "3/4", "3/2"])
+    if coarsening == "smoothed_aggregation": cprm["relax"] = r.choice(["-", "-", "1", "3/4", "3/2", "g-", "g1"])   # g: Gershgorin estimate
     if coarsening == "ruge_stuben":
         cprm["do_trunc"] = r.choice(["-", "1", "0"]); cprm["eps_trunc"] = r.choice(["-", "1/4", "1/8"])
         cprm["eps_strong"] = fmt_q(gen.f32(F(r.choice(["1/4", "1/4", "1/2", "1/8"]))))
